@@ -101,12 +101,9 @@ def alias(tier_):
 
     def replay(a):
         k, h = a
-        import frontend.client.services.service_name_handler as snh
-        d = pathlib.Path(base) / ("h%d" % k)
-        d.mkdir(parents=True, exist_ok=True)
-        snh._PROGRAM_DIR_PATH = d
-        snh.SERVICE_MAPPING_PATH = d / "service_mapping.json"
-        snh.read_service_mapping, snh.write_service_mapping = snh._get_service_mapping_read_and_write_function()
+        import fe_world
+        d = pathlib.Path(base) / ("h%d" % k) / "client"
+        snh = fe_world.fresh_alias_registry(d)
         ev = []
         for step in h:
             if step[0] == "record":
@@ -127,10 +124,10 @@ def alias(tier_):
                 except Exception as ex:
                     res, out = "none", "raised:" + type(ex).__name__
                 ev.append({"e": "get", "n": step[1], "out": out, "res": res if isinstance(res, str) else "?"})
-            else:       # a new process: the closure cache is gone
-                snh.read_service_mapping, snh.write_service_mapping = snh._get_service_mapping_read_and_write_function()
+            else:       # a new process: whatever the module remembered is gone
+                snh = fe_world.fresh_alias_registry(d)
                 ev.append({"e": "restart", "out": "ok"})
-        shutil.rmtree(d, ignore_errors=True)
+        shutil.rmtree(d.parent, ignore_errors=True)
         return ev
     evs = pmap(replay, list(enumerate(hists)), nproc=8)
     traces = [{"tid": "a%d" % k, "ev": ev} for k, ev in enumerate(evs)]
